@@ -18,4 +18,5 @@ def run(ck):
     strings.point_position(ck, "C11.R3")
     strings.decode_terms(ck, "C11.R4")
     strings.parse_dispatch(ck, "C11.R5")
+    strings.string_arms(ck, "C11.R6")
     routes.write_funnel(ck, "C01.R1")
